@@ -295,6 +295,20 @@ def judge_one(kind, ir, r, case, tier='quick'):
                 msg = 'Log value %r vs log of Real %r' % (v, want)
             elif grad and logref[0] == 'ok' and not zero_nt and not grads_close(res[2], logref[2], 1e-6 if rec else 1e-9):
                 msg = 'Log gradients %r vs reference %r' % (res[2], logref[2])
+            elif grad and not zero_nt and len(flat(Z)) == 1 and flat(Z)[0] > 0 and ref[2] is not None:
+                # Log = log Real also for the derivatives: d log Z / d log w = w dZ/dw / Z (scalar start symbol)
+                z0 = flat(Z)[0]
+                for name, gl in (res[2] or {}).items():
+                    gr = ref[2].get(name)
+                    wv = flat(IR.map_nested(ir['w'][name], lambda x: float(x)))
+                    if ir.get('patterned', {}).get(name) == 'diag' and ir['nl'][ir['term'][name][0]] > 1:
+                        k = ir['nl'][ir['term'][name][0]]
+                        wv = [wv[i * k + i] for i in range(k)]
+                    want = [0.0] * len(wv) if gr is None else [w_ * g_ / z0 for w_, g_ in zip(wv, flat(gr))]
+                    got = [0.0] * len(wv) if gl is None else flat(gl)
+                    if any(w_ > 0 and abs(a - b) > (1e-6 if rec else 1e-9) * max(1.0, abs(b)) for w_, a, b in zip(wv, got, want)):
+                        msg = 'Log gradient of %s is %r but w dZ/dw / Z from the Real reference is %r' % (name, got, want)
+                        break
         elif sem == 'bool':
             want = [x > 0 for x in flat(Z)]
             if [bool(x) for x in flat(v)] != want:
